@@ -807,6 +807,10 @@ def mk_fn(name, *args, flags=()) -> Rat:
                 uniq.append(a)
         if len(uniq) == 1:
             return uniq[0]
+        if name == "max" and len(uniq) == 2 and any(u.is_zero() for u in uniq):
+            other = uniq[0] if uniq[1].is_zero() else uniq[1]
+            if is_nonneg(other):
+                return other          # max(x, 0) == x for a form that is non-negative by construction
         if all(u.is_const() for u in uniq):
             f = max if name == "max" else min
             return Rat.const(f(u.const_value() for u in uniq))
